@@ -1,7 +1,217 @@
-use crate::case::Case;
-use crate::engine::Worker;
-use crate::oracle::Violation;
+//! C18 — debug info describes the file that was actually written.
+//!
+//! (1) The binary and the debug-info JSON are two outputs written in sequence: the complete
+//!     single-fault write space over both (fail-stop oracle: exit 0 => both files identical to the
+//!     fault-free pair).
+//! (2) Consistency of the fault-free pair against the file on disk, through truth's independent
+//!     reader: `decompile --show-instr-offsets --no-intrinsics` prints `/* (file_off) script_off */`
+//!     per instruction and for the end of each script; per exported script the JSON's instruction
+//!     offsets and end offset must equal the reader's, and every label offset must be one of them.
 
-pub fn oracle_debuginfo(_w: &mut Worker, _case: &Case) -> Vec<Violation> {
-    vec![]
+use crate::case::{Case, Step};
+use crate::engine::*;
+use crate::oracle::*;
+use crate::report::CheckResult;
+use crate::rng;
+use crate::scen;
+use serde_json::{json, Value};
+use std::collections::BTreeMap;
+
+fn s(x: &str) -> String {
+    x.to_string()
+}
+
+/// Parse the reader's view: one (instruction offsets, end offset) per script, in file order.
+pub fn parse_offsets_text(text: &str) -> Vec<(Vec<u64>, u64)> {
+    let mut out = vec![];
+    let mut cur: Vec<u64> = vec![];
+    for line in text.lines() {
+        let t = line.trim_start();
+        let rest = match t.strip_prefix("/* (0x") {
+            Some(r) => r,
+            None => continue,
+        };
+        let (_file_off, rest) = match rest.split_once(") 0x") {
+            Some(x) => x,
+            None => continue,
+        };
+        let (script_off, rest) = match rest.split_once(" */") {
+            Some(x) => x,
+            None => continue,
+        };
+        let off = match u64::from_str_radix(script_off.trim(), 16) {
+            Ok(o) => o,
+            Err(_) => continue,
+        };
+        if rest.trim() == "}" {
+            out.push((std::mem::take(&mut cur), off));
+        } else {
+            cur.push(off);
+        }
+    }
+    out
+}
+
+pub fn oracle_debuginfo(w: &mut Worker, case: &Case) -> Vec<Violation> {
+    let outs = w.golden(case);
+    let mut v = vec![];
+    if outs.is_empty() || !outs[0].ok() {
+        w.stats.probe("debuginfo:compile-failed(skip)");
+        return v;
+    }
+    let js = match outs[0].files.get(scen::DBG) {
+        Some(j) => j,
+        None => {
+            v.push(Violation { class: "debuginfo:missing".into(), detail: "compile exited 0 without writing the debug info file".into() });
+            return v;
+        }
+    };
+    let doc: Value = match serde_json::from_slice(js) {
+        Ok(d) => d,
+        Err(e) => {
+            v.push(Violation { class: "debuginfo:unparseable".into(), detail: format!("{}", e) });
+            return v;
+        }
+    };
+    let scripts = doc.get("exported-scripts").and_then(|s| s.as_array()).cloned().unwrap_or_default();
+    let mut from_json: Vec<(Vec<u64>, u64)> = vec![];
+    for sc in &scripts {
+        let offs: Vec<u64> = sc.get("instrs").and_then(|i| i.as_array()).map(|a| a.iter().filter_map(|i| i.get("offset").and_then(|o| o.as_u64())).collect()).unwrap_or_default();
+        let end = sc.get("end-offset").and_then(|e| e.as_u64()).unwrap_or(u64::MAX);
+        // internal consistency: strictly increasing offsets below the end, labels on boundaries
+        if offs.windows(2).any(|p| p[0] >= p[1]) || offs.last().map_or(false, |l| *l >= end) {
+            v.push(Violation { class: "debuginfo:offsets-not-increasing".into(), detail: format!("script {:?}: {:?} end {}", sc.get("name"), offs, end) });
+        }
+        for l in sc.get("labels").and_then(|l| l.as_array()).cloned().unwrap_or_default() {
+            let lo = l.get("offset").and_then(|o| o.as_u64()).unwrap_or(u64::MAX);
+            if lo != end && !offs.contains(&lo) {
+                v.push(Violation { class: "debuginfo:label".into(), detail: format!("script {:?}: label {:?} at offset {} is not an instruction boundary ({:?}, end {})", sc.get("name"), l.get("name"), lo, offs, end) });
+            }
+        }
+        from_json.push((offs, end));
+    }
+    w.stats.nontrivial.insert(rng::hash_bytes(case.name.as_bytes()));
+    if outs.len() < 2 || !outs[1].ok() {
+        w.stats.probe("debuginfo:reader-failed(skip)");
+        return v;
+    }
+    let text = String::from_utf8_lossy(&outs[1].stdout).into_owned();
+    let text = if text.is_empty() { outs[1].files.get(scen::DEC).map(|b| String::from_utf8_lossy(b).into_owned()).unwrap_or_default() } else { text };
+    let mut from_reader = parse_offsets_text(&text);
+    if from_reader.len() != from_json.len() {
+        w.stats.probe("debuginfo:script-count-differs(skip)");
+        return v;
+    }
+    w.stats.probe("debuginfo:cross-checked");
+    w.stats.probe_n("debuginfo:scripts-cross-checked", from_json.len() as u64);
+    w.stats.probe_n("debuginfo:instrs-cross-checked", from_json.iter().map(|s| s.0.len() as u64).sum());
+    let mut a = from_json.clone();
+    // MSG scripts have no stored length: a script ends at an all-zero marker, and the reader treats
+    // a marker that is followed by more readable data (e.g. the marker of an adjacent *empty* script)
+    // as an ordinary `ins_0` instruction.  So for MSG the reader may legitimately see one extra
+    // instruction exactly at the debug info's end offset.  Accept that shape (and only that).
+    if case.steps[0].argv[0] == "trumsg" {
+        let mut n = 0;
+        for r in from_reader.iter_mut() {
+            if let Some(&last) = r.0.last() {
+                let mut shorter = r.0.clone();
+                shorter.pop();
+                if !a.contains(&(r.0.clone(), r.1)) && a.contains(&(shorter.clone(), last)) {
+                    *r = (shorter, last);
+                    n += 1;
+                }
+            }
+        }
+        if n > 0 {
+            w.stats.probe_n("debuginfo:msg-end-marker-read-as-instruction(tolerated)", n);
+        }
+    }
+    a.sort();
+    from_reader.sort();
+    if a != from_reader {
+        let (x, y) = a.iter().zip(from_reader.iter()).find(|(x, y)| x != y).map(|(x, y)| (x.clone(), y.clone())).unwrap();
+        let class = if x.0 != y.0 { "debuginfo:offsets" } else { "debuginfo:end" };
+        v.push(Violation { class: class.into(), detail: format!("debug info says {:?} end {}; the reader finds {:?} end {}", x.0, x.1, y.0, y.1) });
+    }
+    v
+}
+
+pub fn run(ctx: &Ctx) -> CheckResult {
+    let quick = ctx.tier == Tier::Quick;
+    let mut bases: Vec<Case> = vec![];
+    for item in scen::source_items(&ctx.corpus) {
+        let mut c = scen::compile_case(item, false);
+        c.steps[0].argv.extend([s("--output-debug-info"), s(scen::DBG)]);
+        // the independent reader
+        let mut argv = vec![item.cmd.clone(), s("decompile"), s("-g"), item.game.clone(), s(scen::OUT), s("-o"), s(scen::DEC)];
+        for i in 0..(item.mapfiles.len() + item.compile_mapfiles.len()) {
+            argv.extend([s("-m"), format!("mapfile-{}", i + 1)]);
+        }
+        argv.extend(item.compile_args.iter().filter(|a| *a == "--mission" || *a == "--ending").cloned());
+        argv.extend([s("--show-instr-offsets"), s("--no-intrinsics")]);
+        c.steps.push(Step::new(argv));
+        c.property = "C18".into();
+        c.oracle = "debuginfo".into();
+        c.name = format!("debuginfo:{}", item.id);
+        bases.push(c);
+    }
+    let (compiles, mut stats, mut findings, mut herr) = par_map(ctx, &bases, |w, _, c| {
+        w.judge(c);
+        w.golden(c).get(0).map_or(false, |o| o.ok())
+    });
+
+    // fault campaign on the compile step (both outputs)
+    let mut by_class: BTreeMap<String, Vec<usize>> = BTreeMap::new();
+    for (i, c) in bases.iter().enumerate() {
+        if compiles[i] {
+            by_class.entry(crate::checks::c03::format_class(c)).or_default().push(i);
+        }
+    }
+    let mut jobs: Vec<FaultJob> = vec![];
+    for (cls, idxs) in &by_class {
+        let rot = rng::mix(ctx.seed, cls, 18) as usize;
+        let mut chosen: Vec<usize> = if quick { (0..idxs.len().min(2)).map(|k| idxs[(rot + k * 5) % idxs.len()]).collect() } else { idxs.clone() };
+        for &i in idxs {
+            if bases[i].name.contains("extra/") && !chosen.contains(&i) {
+                chosen.push(i);
+            }
+        }
+        chosen.sort();
+        chosen.dedup();
+        for (k, &i) in chosen.iter().enumerate() {
+            let big = bases[i].name.contains("extra/big");
+            let budgets = if k == 0 && !big && !quick { Budgets::Complete } else if quick { Budgets::BoundariesPlus(if k == 0 { 16 } else { 0 }) } else { Budgets::BoundariesPlus(32) };
+            let mut base = bases[i].clone();
+            base.steps.truncate(1);
+            base.name = format!("compile+debuginfo:{}", &bases[i].name["debuginfo:".len()..]);
+            jobs.push(FaultJob { base, step: 0, space: FaultSpace { read_side: false, write_side: true, budgets, seed: rng::mix(ctx.seed, &bases[i].name, 2) }, noise: k == 0 || !quick, max_variants: 0 });
+        }
+    }
+    let camp = run_fault_campaign(ctx, &jobs);
+    stats.merge(camp.stats);
+    findings.extend(camp.findings);
+    herr.extend(camp.harness_errors);
+
+    let mut extra = BTreeMap::new();
+    extra.insert("compile_scenarios".into(), json!(bases.len()));
+    extra.insert("compilable".into(), json!(compiles.iter().filter(|c| **c).count()));
+    extra.insert("fault_jobs".into(), json!(jobs.len()));
+    extra.insert("fault_variants".into(), json!(camp.variants));
+    let mut samples = camp.samples;
+    samples.push(json!({"cross_check": bases.get(0).map(|c| c.steps.iter().map(|s| s.argv.join(" ")).collect::<Vec<_>>())}));
+    CheckResult {
+        property: "C18".into(),
+        level: "fault_enumeration",
+        stats,
+        findings,
+        harness_errors: herr,
+        rule: "(a) fault campaign over the compile step writing binary + debug-info JSON: one run per (tracked create/write/lseek event x errno), short write, disk-full budget (write-call boundaries; every byte for one scenario per format class in thorough), EINTR period, chunking; non-trivial = the fault fired (shim log); distinct = (scenario, plan). (b) cross-check of every compilable scenario's fault-free JSON against truth's reader on the written file".into(),
+        samples,
+        extra,
+        exhaustive: false,
+        assumptions: vec![
+            "the reader (llir::read_instrs via decompile --show-instr-offsets) is independent of the lowerer's offset bookkeeping".into(),
+            "label times, locals' registers and const values are compared only against the fault-free run (faults, hash keys via C19), not against an independent reference".into(),
+        ],
+    }
 }
